@@ -1,7 +1,7 @@
 #!/usr/bin/env python3
 """Confirm (demo without / with / suite with), run the property check against, and store every seed of a finished
 seeding round. usage: seedround_process.py <base e.g. /tmp/seed5> <suffix e.g. r4-> Cxx [Cxx ...]"""
-import json, os, subprocess, sys
+import json, os, shutil, subprocess, sys
 base, suffix, ids = sys.argv[1], sys.argv[2], sys.argv[3:]
 env = dict(os.environ, SEED_BASE=base, SEED_SUFFIX=suffix)
 for c in ids:
@@ -24,3 +24,5 @@ for c in ids:
         except Exception:
             print(c, n, "run_seed failed:", r.stdout[-300:])
         subprocess.run([sys.executable, "/verif/tools/collect_seed.py", c, n], env=env, stdout=subprocess.DEVNULL)
+    # the confirmation builds the whole workspace per property: remove the build output (several GB each)
+    shutil.rmtree("%s/%s-target" % (base, c), ignore_errors=True)
